@@ -30,6 +30,12 @@ CHECKS = {
  'C13': dict(cat='proof', tech='Rocq proof (inductive invariant of the io.c slot-ring transition system for all n>=3, R>=1, W>=0, all position lists: buffer ownership, stripe order, no deadlock, termination measure; n=2 deadlock witness) + trace inclusion of real runs via the SNAPRAID_VERIF hook under seeded schedule perturbation + cache-depth differential',
              text='The ring protocol is proved for all parameters and schedules on a transcription of io.c; every recorded event of hundreds of perturbed real runs is replayed by the extracted step function; parity/content bytes and error tag multisets are compared across cache depths 1..128. The pthread runtime, memory model and scan threads are outside the model (TSan run in the thorough tier is a test).',
              ref='4/C13'),
+ 'C12': dict(cat='proof', tech='Rocq proof on an effect-type model of the command dispatcher (allowed effect sets per command, sync never writes data, fix never writes content and reports what it writes, refusals change nothing) + run-by-run comparison with the syscall write-set log of the LD_PRELOAD shim and whole-array byte/mtime/inode snapshots',
+             text='The theorems are light (case analysis of the transcribed dispatcher); the weight is in the tie: for every generated scenario (commands x array conditions x options x injected errors) the observed effect classes must be included in the model\'s allowed set and equal its prediction, and independent snapshots prove nothing else changed.',
+             ref='4/C12'),
+ 'C14': dict(cat='proof', tech='Rocq proof (each interlock fires before the first content/parity effect; refuse/override iff; lock exclusion over any schedule) + trigger matrix on the real binary with byte snapshots before/after and live lock contention',
+             text='Ordering theorems on the dispatcher/sync model with the exact trigger predicates transcribed from scan.c/sync.c/state.c; every trigger is exercised on every disk/level/copy with and without override against the real binary, refusals must leave content and parity byte-identical.',
+             ref='4/C14'),
  'C03': dict(cat='proof', tech='Rocq proof (MDS of the 6x251 Cauchy and 3x251 power matrices by polynomial root counting in MathComp; Gauss-Jordan without pivoting never meets a zero pivot; combination enumerator and sorting networks) + unit correspondence of raid_rec/raid_data/raid_check/raid_scan in all decoder families against the known original stripe',
              text='All 3.8e11 minors are settled by theorems, not enumeration; the decoder/validator models are executed against the real raid/*.c (int8, ssse3, avx2, dispatcher) on exhaustive small geometries and boundary-aimed large ones, the oracle being the original stripe.',
              ref='4/C03'),
